@@ -420,6 +420,16 @@ func c02Cases(thorough bool) []c02Case {
 				if kind.ServerStreams() {
 					sents = []int{0, 1, 2}
 				}
+				// the handler has set response trailers under the keys of the error's metadata
+				if kind.ServerStreams() {
+					for meta := range c02Metas {
+						for _, sent := range sents {
+							for tr := 1; tr <= len(c02TrailerKeys); tr++ {
+								out = append(out, c02Case{Cfg: cfg, Code: 10, Msg: 1, Details: 1, Meta: meta, Sent: sent, Trailers: tr})
+							}
+						}
+					}
+				}
 				if thorough {
 					for code := 0; code <= 16; code++ {
 						for msg := range c02Messages[:c02LongMsg] {
@@ -463,16 +473,7 @@ func c02Cases(thorough bool) []c02Case {
 						}
 					}
 				}
-				// the handler has set response trailers under the keys of the error's metadata
-				if kind.ServerStreams() {
-					for meta := range c02Metas {
-						for _, sent := range sents {
-							for tr := 1; tr <= len(c02TrailerKeys); tr++ {
-								out = append(out, c02Case{Cfg: cfg, Code: 10, Msg: 1, Details: 1, Meta: meta, Sent: sent, Trailers: tr})
-							}
-						}
-					}
-				}
+
 			}
 		}
 	}
